@@ -657,6 +657,20 @@ def directed_triangles():
         "paid_loss": arr(i, j).astype(np.float32), "reported_loss": arr(i, j).astype(np.int32),
         "reported_claims": arr(i, j).astype(np.int16), "incurred_loss": arr(i, j) > 11})))
     add("G:2d-fortran", lambda: Triangle(grid(vals_of=lambda i, j: {"paid_loss": np.asfortranarray(np.arange(6.0).reshape(2, 3))})))
+    # M  metadata whose only difference are values with colliding CPython hashes
+    add("M:hash-colliding-slices", lambda: Triangle([c for m in [Metadata(details={"h": -1, "z": 0}), Metadata(details={"h": -2, "z": 0}),
+                                                                 Metadata(details={"h": -1, "z": 2**61 - 1}),
+                                                                 Metadata(details={"h": -1, "z": 0}, per_occurrence_limit=-1.0),
+                                                                 Metadata(details={"h": -1, "z": 0}, per_occurrence_limit=-2.0)]
+                                                     for c in grid(lambda i, j: m, periods=Q[:2])][::-1]))
+    # N  dates far outside the datetime64[ns] range, alone and next to ordinary ones
+    for y in (2300, 2999, 1600):
+        add(f"N:year-{y}", lambda y=y: Triangle(grid(periods=[(D(y, 1, 1), D(y, 3, 31)), (D(y, 4, 1), D(y, 6, 30))],
+                                                     evs=[D(y, 6, 30), D(y, 9, 30)])))
+    add("N:year-9999+date.max", lambda: Triangle(grid(periods=[(D(9999, 11, 1), D(9999, 11, 30)), (D(9999, 12, 1), D.max)],
+                                                      evs=[D(9999, 12, 30)])))
+    add("N:ordinary+far", lambda: Triangle(grid(periods=Q[:1], evs=EV[:2]) +
+                                           grid(periods=[(D(2999, 1, 1), D(2999, 3, 31))], evs=[D(2999, 3, 31), D(2999, 6, 30)])))
     # I  restated cells
     add("I:restated-cells", lambda: Triangle(grid() + grid(vals_of=lambda i, j: {"paid_loss": 1, "earned_premium": 2})))
     # J  period layouts
